@@ -459,6 +459,8 @@ def other_exits(ctx, s, fn, filt):
             # within the loop body: every path from the driver to this exit passes an is_replaceable-true edge
             sub = s.reach(fn, [drv[0]], avoid=good)
             ok = e.node not in sub and bool(good)
+            if not ok and any(cfg.dominates(g_, H) for g_ in good):
+                ok = True       # the whole loop runs only for a replaceable kind (the test was made before entering it)
             sp = fn.blocks[e.src]["term"]["sp"]
             s.add("S-DOM", fn, "early-exit-only-for-replaceable-kind", "loop@%d" % (sp["l"] // 60), sp, PROVED if ok else VIOLATION,
                   "the scan of an (author, kind) range stops after one accepted event only when Kind::is_replaceable holds" if ok else
